@@ -57,6 +57,9 @@ theorem maskOf_pos (S : List Nat) (d : Nat) (hd : d < 7) (hm : d ∈ S) : 2 ≤ 
   unfold maskOf
   rcases this with rfl | rfl | rfl | rfl | rfl | rfl | rfl <;> simp [hm] <;> omega
 
+theorem inChain_bs2d (n : Int) : inChain "bit_summary_to_days" n = decide (1 < n ∧ n < 255) := by
+  simp [inChain, Gen.chainGuards, cmpOp, List.find?]
+
 theorem fmt02x_hex2 : ∀ n < 256, fmt02x n = hex2 n := by decide +kernel
 
 end Model
